@@ -108,6 +108,8 @@ def check_save_conversions(prog, rep, rule='R1.1', namespaces=ARCHIVE_NS):
 
 
 def run(prog, rep):
+    from rules import narrow_counters
+    narrow_counters.check(prog, rep, 'R1.10')
     from rules import csv_options
     csv_options.check(prog, rep, 'R1.9')
     rep.rule('R1.1', 'save paths: the parameter "value" of every archive-scope SerializeValue / SaveValue reaches the back end through '
